@@ -376,7 +376,7 @@ func controlProfile() Profile {
 	stmts = func(n int, inLoop bool) []*Node {
 		var out []*Node
 		if n == 1 {
-			out = append(out, ExprS(pr("1")), Return(pr("2")), Assign("+=", Name("c"), Num(1)))
+			out = append(out, ExprS(pr("1")), Return(pr("2")), Assign("+=", Name("c"), Num(1)), Pass())
 			if inLoop {
 				out = append(out, Break(), Continue())
 			}
@@ -770,7 +770,132 @@ func compProfile() Profile {
 	}}
 }
 
+// ---------------------------------------------------------------------------
+// profile "fold": operator expressions all of whose operands are literals
+// (what a compiler may evaluate ahead of time), with integer literals at the
+// int64 boundaries, in every association of up to three operands.
+
+func foldProfile() Profile {
+	lits := func() []*Node {
+		return []*Node{Num(0), Num(1), Num(2), Num(63), Num(9223372036854775807), Num(4611686018427387904), Num(4611686018427387903),
+			Str("a"), Str(""), List(Num(1)), Tuple(Num(2)), Paren(Num(1)), Un("-", Num(1)), Un("-", Num(9223372036854775807))}
+	}
+	ops := []string{"+", "-", "*", "//", "%", "&", "|", "^", "<<", ">>", "==", "<"}
+	return Profile{Name: "fold", MaxLevel: 2, Level: func(n int, yield func(Program) bool) {
+		emit := func(e *Node) bool {
+			return yield(Program{Profile: "fold", Stmts: []*Node{Assign("=", Name("x"), e)}})
+		}
+		L := lits()
+		switch n {
+		case 1:
+			for _, a := range L {
+				for _, b := range L {
+					for _, op := range ops {
+						if !emit(Bin(op, a, b)) {
+							return
+						}
+					}
+				}
+			}
+		case 2:
+			L = L[:11] // without the parenthesised and negated forms
+			for _, a := range L {
+				for _, b := range L {
+					for _, c := range L {
+						for _, o1 := range ops[:10] {
+							for _, o2 := range ops[:10] {
+								if !emit(Bin(o2, Bin(o1, a, b), c)) || !emit(Bin(o1, a, Paren(Bin(o2, b, c)))) {
+									return
+								}
+							}
+						}
+					}
+				}
+			}
+		}
+	}}
+}
+
+// ---------------------------------------------------------------------------
+// profile "escape": values that the call machinery builds for a callee (the
+// *args tuple, the **kwargs dict, default values, closure cells) escape from
+// the call and are looked at after the caller has evaluated further
+// expressions, made further calls and returned.
+
+func escapeProfile() Profile {
+	callees := func() []*Node {
+		return []*Node{
+			Def("f", []*Param{PStar("a")}, []*Node{Return(Name("a"))}),
+			Def("f", []*Param{P("p"), PStar("a")}, []*Node{Return(Name("a"))}),
+			Def("f", []*Param{PStar("a"), PStarStar("k")}, []*Node{Return(Tuple(Name("a"), Name("k")))}),
+			Def("f", []*Param{PStar("a")}, []*Node{Return(Lambda(nil, Name("a")))}),
+			Def("f", []*Param{PStar("a")}, []*Node{ExprS(Call(Attr(Name("keep"), "append"), Name("a"))), Return(Num(0))}),
+			Def("f", []*Param{PStarStar("k")}, []*Node{Return(Name("k"))}),
+			Def("f", []*Param{PD("p", List()), PStar("a")}, []*Node{ExprS(Call(Attr(Name("p"), "append"), Name("a"))), Return(Name("p"))}),
+			Def("f", []*Param{P("p"), P("q")}, []*Node{Return(Lambda(nil, Tuple(Name("p"), Name("q"))))}),
+		}
+	}
+	calls := func() []*Node {
+		mk := func(pos []*Node, named []NamedArg, star, starstar *Node) *Node {
+			c := Call(Name("f"), pos...)
+			c.Named, c.Star, c.StarStar = named, star, starstar
+			return c
+		}
+		return []*Node{
+			mk([]*Node{pr("1"), pr("2")}, nil, nil, nil),
+			mk([]*Node{pr("1"), pr("2"), pr("3")}, nil, nil, nil),
+			mk([]*Node{pr("1")}, nil, Probe(0, List(Num(2), Num(3))), nil),
+			mk(nil, nil, Probe(0, Tuple(Num(1), Num(2))), nil),
+			mk([]*Node{pr("1"), pr("2")}, []NamedArg{{"z", pr("3")}}, nil, nil),
+			mk(nil, []NamedArg{{"y", pr("1")}, {"z", pr("2")}}, nil, nil),
+			mk(nil, nil, nil, Probe(0, DictE(Str("y"), Num(1), Str("z"), Num(2)))),
+		}
+	}
+	after := func() [][]*Node {
+		return [][]*Node{
+			{Assign("=", Name("y"), List(pr("3"), pr("4"), pr("5")))},
+			{Assign("=", Name("y"), Bin("+", Bin("*", pr("3"), pr("4")), pr("5")))},
+			{Assign("=", Name("y"), Call(Name("f"), pr("6"), pr("7")))},
+			{Assign("=", Name("y"), DictE(pr("3"), pr("4"), pr("5"), pr("6")))},
+			{Assign("=", Name("y"), Call(Name("len"), List(pr("3"), pr("4"), pr("5"), pr("6"))))},
+			{Assign("=", Name("y"), ListComp(Tuple(Name("i"), pr("8"), pr("9")), ForC(Name("i"), List(Num(1), Num(2)))))},
+		}
+	}
+	cS, kS, aS := callees(), calls(), after()
+	return Profile{Name: "escape", MaxLevel: 2, Level: func(n int, yield func(Program) bool) {
+		for ci := range cS {
+			for ki := range kS {
+				for ai := range aS {
+					// what escaped is looked at (and, for the closure forms, called) at the end
+					look := []*Node{Assign("=", Name("z"), Probe(0, Name("x")))}
+					if ci == 3 || ci == 7 {
+						look = []*Node{Assign("=", Name("z"), Probe(0, Call(Name("x"))))}
+					}
+					var st []*Node
+					switch n {
+					case 1: // at top level: the operand stack of the module's frame
+						st = []*Node{Assign("=", Name("keep"), List()), cS[ci], Assign("=", Name("x"), kS[ki])}
+						st = append(st, aS[ai]...)
+						st = append(st, look...)
+					case 2: // inside a function that returns afterwards
+						body := []*Node{Assign("=", Name("x"), kS[ki])}
+						body = append(body, aS[ai]...)
+						body = append(body, look...)
+						body = append(body, Return(Tuple(Name("x"), Name("y"), Name("z"))))
+						st = []*Node{Assign("=", Name("keep"), List()), cS[ci], Def("main", nil, body),
+							Assign("=", Name("r"), Call(Name("main"))), Assign("=", Name("r2"), Call(Name("main"))),
+							Assign("=", Name("w"), Probe(0, Name("r")))}
+					}
+					if !yield(Program{Profile: "escape", Stmts: st}) {
+						return
+					}
+				}
+			}
+		}
+	}}
+}
+
 // Profiles returns every profile in a fixed order.
 func Profiles() []Profile {
-	return []Profile{exprProfile(), plusProfile(), assignProfile(), controlProfile(), scopeProfile(), callProfile(), loadProfile(), compProfile()}
+	return []Profile{exprProfile(), plusProfile(), assignProfile(), controlProfile(), scopeProfile(), callProfile(), loadProfile(), compProfile(), foldProfile(), escapeProfile()}
 }
